@@ -239,7 +239,11 @@ def run_instance(inst):
                 fresh(pt, f"s{step}_{pn}", pn)
     preF = z3.And(*pre) if pre else z3.BoolVal(True)
     eng = Engine(max_decisions=200, max_paths=400, path_timeout=8.0)
+    import time as _time
+    eng.deadline = _time.time() + 120.0
     paths = eng.explore(fn, preF)
+    if eng.truncated:
+        res["cut"] += 1
     res["paths"] = len(paths)
     if not paths:
         res["errors"].append("no feasible path (vacuous history)")
